@@ -6,6 +6,16 @@ HERE = os.path.dirname(os.path.dirname(os.path.abspath(__file__)))
 ALL = ["C%02d" % i for i in range(1, 21)]
 
 CLAIMED = {
+ "C11": dict(
+   technique="TLA+ models LinopExpr.tla (expression trees with literal product dispatch and exact integer denotation), LinopCache.tla (per-class capability cache over all instantiation histories) and Bcast.tla (batch-shape table) enumerated exhaustively by TLC; every enumerated tree, history and shape pair executed on the real classes and compared with TLC's predicted values, leaf call logs, flags and shapes",
+   text="TLC enumerates all 3176 operator expressions of depth <= 2 over six leaf kinds (mv only, +rmv, +mm, all products, Hermitian-flagged, dense) built with .H, scalar *, +, -, matmul and checks that the literal dispatch of mv/rmv/mm/rmm/fullmatrix equals the expression's integer denotation; all instantiation orders of three class hierarchies for the capability cache; the complete batch-shape table for rank <= 2. The real code is then run on the same trees with the same integer matrices (results must equal TLC's vectors exactly and the leaves' primitive-call log must equal the predicted dispatch path), on random complex128/float32/batched matrices against the dense denotation, on every instantiation history with freshly created classes, and on every shape pair (accept with the broadcast shape or reject).",
+   design_ref="5.2, 6 (C11)",
+   note="Trusted: TLC/SANY, counting leaves and dense denotation in harness/props/c11.py. Quick replays a seeded subset (1200) of the trees, thorough all; depth 3 is not enumerated. Jacobian-operator leaves are covered by C17."),
+ "C17": dict(
+   technique="TLA+ model JacCache.tla (identity-keyed cache under temporary parameter substitution) checked by TLC; its state graph replayed on real jac/hess operators with distinct-valued tensors per identity, products compared with dense autograd Jacobians at the point the specification names and re-evaluation with the specification's counter; case table against torch.autograd.functional",
+   text="TLC explores every sequence of parameter substitutions (point, explicit parameter, object-held parameter; nesting <= 2) and products and checks that each product is taken at the currently installed tensors and that the function is re-evaluated exactly when they differ from the cached ones; both cache-key deviations are caught. Every product edge (quick: seeded subset) is executed on real jac and hess operators of an EditableModule method: the value must equal the dense Jacobian/Hessian at the substituted values and the function's call counter must move as predicted. A table over 7 representations x {jac, hess} x 8 products incl. .H and batched operands checks values and first/second derivatives w.r.t. point and leaves, all index selections, and rejection of non-differentiable arguments.",
+   design_ref="5.12, 6 (C17)",
+   note="Trusted: TLC/SANY, torch.autograd.functional as dense reference. Each product in the table uses a fresh operator (an operator's cached graph is freed by a backward pass without retain_graph, as in plain torch)."),
  "C09": dict(
    technique="TLA+ model ParamSubst.tla (unique maps, substitution through views) checked by TLC over all alias partitions; hook-recorded substitution protocol of every functional on every representation validated by TLC against Trace_ParamSubst.tla, final event carrying the numeric verdicts value/grad1/grad2 equal to the pure-function form",
    text="Design level: for every aliasing partition of the object's named tensors TLC checks that expanding the unique list restores the full list, that a substitution installs exactly the requested tensors and that every evaluation sees them. Implementation level: each of the 8 functionals is run on 7 representations of one function family (nn.Module with nested sub-module, EditableModule with derived/list-/dict-held aliased tensors, nn.Module inside EditableModule, mixed explicit/object/non-tensor parameters, single and multiple siblings, tied nn parameters) with default and iterative backward solvers; TLC accepts the recorded protocol only if each view starts from the unique list of what the object holds, each substitution installs Expand(requested) and the final event's verdicts (value, first- and second-order gradients equal to the pure-function form) are all true.",
